@@ -13,8 +13,9 @@ def check(reg, tier):
     pykernel.dll_call_kernel(reg, PROP)
     pykernel.kernel_Fq_Iq(reg, PROP)
     kernel_c.kernel_contracts(reg, PROP, tier)
-    from contracts import details_rt
+    from contracts import details_rt, details_sym
+    details_sym.make_details_contract(reg, PROP, tier)
     details_rt.run(reg, PROP)
-    reg.extra["bounded_note"] = ("make_kernel_args/make_details: bounded run-time contract over every "
+    reg.extra["bounded_note"] = ("make_details: proved symbolically (contracts/details_sym.py); make_kernel_args: bounded run-time contract over every "
                                  "(builtin model, dispersible parameter) x {several, single, empty} mesh; "
                                  "never counted as proved")
